@@ -1066,7 +1066,7 @@ def obligations(tier):
     quick = tier == "quick"
     alpha = ALPHA["quick" if quick else "thorough"]
     protos = (2, pickle.HIGHEST_PROTOCOL) if quick else tuple(range(2, pickle.HIGHEST_PROTOCOL + 1))
-    budget = 240 if quick else 3000
+    budget = 600 if quick else 3000
     out = []
 
     def dict_ob(name, fn, cls_name, op, covers, maxn, maxarg, pre_keys, arg_keys, **extra):
